@@ -112,6 +112,24 @@ class _FaultyFile:
         return getattr(self._fh, name)
 
 
+def interval_value(c):
+    """the reporting interval as the caller hands it over: the same number in every numeric type that can be compared
+    with the clock's float (the gate only ever compares; a gate that does arithmetic on the interval may not support them)"""
+    v = c.get('interval', 0)
+    ty = c.get('interval_type')
+    if ty == 'decimal':
+        import decimal
+        return decimal.Decimal(repr(float(v)))
+    if ty == 'fraction':
+        import fractions
+        return fractions.Fraction(v)
+    if ty == 'int' and float(v).is_integer():
+        return int(v)
+    if ty == 'bool' and v in (0, 1):
+        return bool(v)
+    return v
+
+
 # what a callback may answer to ask for a stop: the documented contract is `is not None`, so falsy values count
 CANCEL_ANSWERS = [True, False, 0, '', (), 0.0, 'stop', 1]
 
@@ -216,10 +234,10 @@ def run_case(torf, wd, c):
         try:
             if c['mode'] == 'generate':
                 res['ret'] = t.generate(threads=c['threads'], callback=user_cb if cbspec else None,
-                                        interval=c.get('interval', 0))
+                                        interval=interval_value(c))
             else:
                 res['ret'] = t.verify(top, threads=c['threads'], callback=user_cb if cbspec else None,
-                                      interval=c.get('interval', 0))
+                                      interval=interval_value(c))
         except shim._Abort:
             pass                     # unwound by the scheduler after a deadlock/livelock/budget outcome: no result
         except BaseException as e:   # noqa
